@@ -998,7 +998,7 @@ func (x *Exec) step(f *Frame, st *State, ins ssa.Instruction) bool {
 				x.panicSite(f, st, pv.Nil, "nil dereference at "+x.pos(in.Pos()))
 				st.assume(Not(pv.Nil))
 			}
-			f.regs[in] = x.materializePtr(st, x.load(st, v), in.Type())
+			f.regs[in] = x.boxIface(st, x.materializePtr(st, x.load(st, v), in.Type()), in.Type())
 		case token.NOT:
 			f.regs[in] = Not(v.(*Term))
 		case token.SUB:
@@ -2004,6 +2004,41 @@ func (x *Exec) materializePtr(st *State, v Val, t types.Type) Val {
 	st.mem[o] = SelField(tm, 1)
 	x.assumed["A-PTRFIELD: a message-typed pointer field is read as an optional value (pointee not shared)"] = true
 	return &PtrVal{Obj: o, Nil: SelField(tm, 0)}
+}
+
+// boxIface: an element read out of a list of single-implementation interface values is that implementation value
+// (behind a fresh pointer when the implementation is a pointer type).
+func (x *Exec) boxIface(st *State, v Val, t types.Type) Val {
+	tm, ok := v.(*Term)
+	if !ok {
+		return v
+	}
+	impl := ifaceImpl(t)
+	if impl == nil {
+		return v
+	}
+	if s := SortOf(derefType(impl)); s == nil || s != tm.Sort {
+		return v
+	}
+	if _, isPtr := types.Unalias(impl).Underlying().(*types.Pointer); isPtr {
+		o := x.newObj(derefType(impl), "elem")
+		st.mem[o] = tm
+		return &IfaceVal{Type: impl, Dyn: &PtrVal{Obj: o}}
+	}
+	return &IfaceVal{Type: impl, Dyn: tm}
+}
+
+// unboxElem: the value an interface or pointer stands for, as a list element.
+func (x *Exec) unboxElem(st *State, v Val) Val {
+	if iv, ok := v.(*IfaceVal); ok {
+		v = iv.Dyn
+	}
+	if pv, ok := v.(*PtrVal); ok && pv.Nil == nil {
+		if t, ok := x.load(st, pv).(*Term); ok {
+			return t
+		}
+	}
+	return v
 }
 
 // opaqueLen: the (unknown but fixed) length of an unmodelled list value.
